@@ -69,7 +69,7 @@ type RegSpec struct {
 func (s *RegSpec) d(name string) bool { return s.Dev[name] }
 
 // maxVariants is an upper bound on the number of variants any single deviation has
-const maxVariants = 12
+const maxVariants = 18
 
 func variant[T any](r *RNG, v int, xs []T) T {
 	if v >= 0 {
@@ -301,7 +301,7 @@ func buildRegistration(r *RNG, s *RegSpec) *RegBuilt {
 	}
 	if s.d("cd.origin") {
 		h := hostOf(s.Origin)
-		cd.Origin = variant(r, s.Var, []string{"https://evil.example", "https://evil" + h, "https://" + h + ".evil.com", "https://evil.com/" + h, "https://" + h + "@evil.com", "", "https://evil.com?" + h, "https://evil.com#" + h, "null", "https://www.not" + h, "https://x" + h + ":443", "https://login.evil" + h})
+		cd.Origin = variant(r, s.Var, []string{"https://evil.example", "https://evil" + h, "https://" + h + ".evil.com", "https://evil.com/" + h, "https://" + h + "@evil.com", "", "https://evil.com?" + h, "https://evil.com#" + h, "null", "https://www.not" + h, "https://x" + h + ":443", "https://login.evil" + h, "https://attacker.test.", "https://" + h + ".", "https://login.attacker.test.:8443", "https://" + h + "..", "https://evil.example./"})
 	}
 	b.CDJ = cd.JSON(r)
 	if s.d("cd.malformed") {
@@ -438,6 +438,9 @@ func buildRegistration(r *RNG, s *RegSpec) *RegBuilt {
 		if r.P(1, 3) {
 			chain = append(chain, caCert.Raw)
 		}
+		if s.d("x5c.leafSecond") {
+			chain = [][]byte{caCert.Raw, der}
+		}
 		b.Stmt = stmtOf(cborText("alg"), cborInt(int64(s.AttAlg)), cborText("sig"), cborBytes(mkSig(signer, s.AttAlg, signed)), cborText("x5c"), x5cOf(chain...))
 		if s.d("x5c.empty") {
 			b.Stmt = stmtOf(cborText("alg"), cborInt(int64(s.AttAlg)), cborText("sig"), cborBytes(mkSig(signer, s.AttAlg, signed)), cborText("x5c"), cborArray())
@@ -540,7 +543,7 @@ func buildRegistration(r *RNG, s *RegSpec) *RegBuilt {
 				}
 			}
 		}
-		b.Stmt = stmtOf(cborText("alg"), cborInt(int64(s.CredAlg)), cborText("sig"), cborBytes(mkSig(signer, s.CredAlg, signed)), cborText("x5c"), x5cOf(der, caCert.Raw))
+		b.Stmt = stmtOf(cborText("alg"), cborInt(int64(s.CredAlg)), cborText("sig"), cborBytes(mkSig(signer, s.CredAlg, signed)), cborText("x5c"), x5cOf(leafFirstOrSecond(s, der)...))
 	case "apple":
 		certKey := cred
 		if s.d("apple.certKeyOther") {
@@ -560,10 +563,13 @@ func buildRegistration(r *RNG, s *RegSpec) *RegBuilt {
 			exts = nil
 		}
 		der := makeCert(certKey.Public(), CertSpec{Subject: pkix.Name{CommonName: "Apple anonymous attestation"}, Extensions: exts})
-		b.Stmt = stmtOf(cborText("x5c"), x5cOf(der, caCert.Raw))
+		b.Stmt = stmtOf(cborText("x5c"), x5cOf(leafFirstOrSecond(s, der)...))
 	case "tpm":
 		aik := genKeyPair(r, s.AttAlg)
-		nameAlg := pick(r, []tpm2.Algorithm{tpm2.AlgSHA256, tpm2.AlgSHA1, tpm2.AlgSHA384})
+		nameAlg := pick(r, []tpm2.Algorithm{tpm2.AlgSHA256, tpm2.AlgSHA1, tpm2.AlgSHA384, tpm2.AlgSHA256, tpm2.AlgSHA3_256, tpm2.AlgSHA512})
+		if s.d("tpm.nameAlgForeignSameSize") {
+			nameAlg = pick(r, []tpm2.Algorithm{tpm2.AlgSHA256, tpm2.AlgSHA384, tpm2.AlgSHA3_256, tpm2.AlgSHA512})
+		}
 		pubKey := cred
 		if s.d("tpm.pubAreaOtherKey") {
 			pubKey = genKeyPair(r, s.CredAlg)
@@ -590,6 +596,11 @@ func buildRegistration(r *RNG, s *RegSpec) *RegBuilt {
 				other = tpm2.AlgSHA256
 			}
 			name = tpm2.Name{Digest: &tpm2.HashValue{Alg: other, Value: tpmHash(other, pubEnc)}}
+		}
+		if s.d("tpm.nameAlgForeignSameSize") {
+			// digest under pubArea's name algorithm, tagged with another algorithm of the same digest size
+			foreign := map[tpm2.Algorithm]tpm2.Algorithm{tpm2.AlgSHA256: tpm2.AlgSHA3_256, tpm2.AlgSHA384: tpm2.AlgSHA3_384, tpm2.AlgSHA3_256: tpm2.AlgSHA256, tpm2.AlgSHA512: tpm2.AlgSHA3_512}
+			name = tpm2.Name{Digest: &tpm2.HashValue{Alg: foreign[nameAlg], Value: tpmHash(nameAlg, pubEnc)}}
 		}
 		if s.d("tpm.nameHandle") {
 			h := tpmutilHandle(0x81000001)
@@ -652,7 +663,7 @@ func buildRegistration(r *RNG, s *RegSpec) *RegBuilt {
 			toSign = append([]byte{}, certInfo...)
 			toSign[len(toSign)-1] ^= 1
 		}
-		b.Stmt = stmtOf(cborText("ver"), cborText("2.0"), cborText("alg"), cborInt(int64(s.AttAlg)), cborText("x5c"), x5cOf(der, caCert.Raw),
+		b.Stmt = stmtOf(cborText("ver"), cborText("2.0"), cborText("alg"), cborInt(int64(s.AttAlg)), cborText("x5c"), x5cOf(leafFirstOrSecond(s, der)...),
 			cborText("sig"), cborBytes(mkSig(signer, s.AttAlg, toSign)), cborText("certInfo"), cborBytes(certInfo), cborText("pubArea"), cborBytes(pubEnc))
 		if s.d("tpm.noCerts") {
 			b.Stmt = stmtOf(cborText("ver"), cborText("2.0"), cborText("alg"), cborInt(int64(s.AttAlg)), cborText("x5c"), cborArray(),
@@ -753,4 +764,13 @@ func makeJWS(k *KeyPair, payload []byte, chain [][]byte, withX5c bool) string {
 		panic(err)
 	}
 	return s
+}
+
+// leafFirstOrSecond: the honest order is attestation certificate first; the deviation x5c.leafSecond presents the CA certificate first
+// and the certificate whose key made the signature second (the statement then "presents" the CA key, which did not sign)
+func leafFirstOrSecond(s *RegSpec, der []byte) [][]byte {
+	if s.d("x5c.leafSecond") {
+		return [][]byte{caCert.Raw, der}
+	}
+	return [][]byte{der, caCert.Raw}
 }
